@@ -860,3 +860,61 @@ Proof.
   exact (C17_ecies_recover_capstone _ _ _ GH GI H3 (H5 Hn) H4).
 Qed.
 Print Assumptions C17_ecies_recover_p256.
+
+(* ===================================================================== *)
+(* 9. NIST P-256 (the curve of the registered ECC plug-in) with NO hypothesis at all: primality
+   of p and n comes from Pocklington certificates (Proofs/Pocklington.v: checker + soundness,
+   Proofs/PrimeCertsP256.v: the certificates, Proofs/P256Primes.v: lookup of the GENERATED
+   constants), the group law from section 8. *)
+From Bec2 Require Import Proofs.P256Primes.
+
+Theorem C17_p256_primes : prime p256_p /\ prime p256_n.
+Proof. split; [exact p256_p_prime | exact p256_n_prime]. Qed.
+Print Assumptions C17_p256_primes.
+
+Theorem C17_p256_group :
+  ec_group p256_p p256_a
+    (fun P => exists k : nat, P = nmul (aff_add p256_p p256_a) k p256_Gpt)
+    (aff_add p256_p p256_a) (aff_neg p256_p) /\
+  zmul (aff_add p256_p p256_a) (aff_neg p256_p) p256_n p256_Gpt = None /\
+  (forall k, 0 < k < p256_n -> zmul (aff_add p256_p p256_a) (aff_neg p256_p) k p256_Gpt <> None).
+Proof.
+  destruct (EcLawCurves_p256 p256_p_prime) as [GH _].
+  destruct (EcLawCurves_p256_facts p256_p_prime) as (H3 & _ & H5).
+  split; [exact GH | split; [exact H3 | exact (H5 p256_n_prime)]].
+Qed.
+Print Assumptions C17_p256_group.
+
+Theorem C17_p256_pub_valid_unconditional : forall d, p256_valid_pub (p256_pub_of d) = true.
+Proof. exact (C17_p256_pub_valid_closed p256_p_prime p256_n_prime). Qed.
+Print Assumptions C17_p256_pub_valid_unconditional.
+
+(* both parties of the plug-in's key agreement obtain the same secret, for ALL byte strings d, e *)
+Theorem C17_p256_ecdh_comm_unconditional : forall d e,
+  p256_ecdh d (p256_pub_of e) = p256_ecdh e (p256_pub_of d).
+Proof. exact (C17_p256_ecdh_comm_closed p256_p_prime p256_n_prime). Qed.
+Print Assumptions C17_p256_ecdh_comm_unconditional.
+
+(* C02 over the bundled AES and the P-256 plug-in model: nothing assumed about AES, the curve
+   or the primes (sha256 and the random sources stay oracle arguments) *)
+Theorem C17_bec2_roundtrip_p256_unconditional :
+  forall sha256 keygen rand16 f bs key encs decs nk t nk' check nr,
+    blen key = 16%N -> wf_file f -> bs <> [] ->
+    NoDup (map fst bs) -> all_match p256_pub_of bs encs decs ->
+    bec2_write_file (adapter_encrypt aes_E) (adapter_mac aes_E) sha256 p256_pub_of p256_ecdh keygen (mkBec2 f bs key) encs nk = Ok (t, nk') ->
+    bec2_read_file (adapter_decrypt aes_D) (adapter_mac aes_E) sha256 p256_valid_pub p256_ecdh rand16 t decs check nr =
+      Ok (mkBec2 (file_view f) bs key, nr).
+Proof. exact (C17_bec2_roundtrip_p256 p256_p_prime p256_n_prime). Qed.
+Print Assumptions C17_bec2_roundtrip_p256_unconditional.
+
+(* C09: the spec-side ECIES recipient recovers the session key of every ECC block *)
+Theorem C17_ecies_recover_p256_unconditional :
+  forall sha256 keygen sel key exts nk raw nk' s d pr,
+    blen key = 16%N ->
+    select_encryptor KEcc exts
+      (match default_pub sel with Some p => Some (EEcc sel p None) | None => None end) (ecc_sel_is sel)
+      = Ok (EEcc s (p256_pub_of d) pr) ->
+    pack (adapter_encrypt aes_E) sha256 p256_pub_of p256_ecdh keygen (ABEcc sel) key exts nk = Ok (raw, nk') ->
+    ecies_recipient (adapter_decrypt aes_D) sha256 p256_ecdh d raw = Ok (sel, key).
+Proof. exact (C17_ecies_recover_p256 p256_p_prime p256_n_prime). Qed.
+Print Assumptions C17_ecies_recover_p256_unconditional.
